@@ -196,7 +196,7 @@ def enum_op(tier):
             if tier == 'quick' and g['n'] == 4 and i % 4:
                 continue
             yield {'n': g['n'], 'edges': g['edges'], 'total': total, 'smart': smart, 'plant': plant, 'knuth': knuth,
-                   'cls': 'OPB' if i % 5 == 0 else 'CNF', 'as': 'networkx' if i % 7 == 0 else 'cnfgen'}
+                   'cls': 'OPB' if i % 5 == 0 else 'CNF', 'as': ('networkx', 'cnfgen', 'cnfgen-grown', 'cnfgen', 'networkx-rev', 'cnfgen', 'cnfgen')[i % 7]}
 
 
 @st.composite
